@@ -115,6 +115,7 @@ var (
 	routeMu sync.RWMutex
 	routes  = map[interface{}]*Run{}
 	callRt  = map[*rpc.Call]*Run{}
+	retired = map[interface{}]bool{}
 )
 
 func route(obj interface{}, r *Run) {
@@ -126,6 +127,9 @@ func route(obj interface{}, r *Run) {
 func unroute(obj interface{}) {
 	routeMu.Lock()
 	delete(routes, obj)
+	if _, ok := obj.(*rpc.Client); ok {
+		retired[obj] = true // a goroutine of this client that is still winding down must not be adopted by a later run
+	}
 	routeMu.Unlock()
 }
 
@@ -169,6 +173,12 @@ var (
 
 func adopt(obj interface{}) (*Run, func(ev string, sub interface{})) {
 	if _, ok := obj.(*rpc.Client); !ok {
+		return nil, nil
+	}
+	routeMu.RLock()
+	old := retired[obj]
+	routeMu.RUnlock()
+	if old {
 		return nil, nil
 	}
 	adoptMu.Lock()
